@@ -127,6 +127,9 @@ def obligations(tier, seed):
                "epochs in TAI and GPST, centuries -3..3 (1600-2300), every day and every nanosecond of the day x 7 weekdays", tq=7200, tt=7200, tier="thorough", mem=30),
         KaniOb("c16", "c16_weekday_utc", "weekday_utc() is the civil weekday of the UTC calendar date (TAI and UTC sourced epochs, either side of every leap second, first and last ns of the day)",
                ["Epoch::weekday_utc", "Epoch::weekday_in_time_scale", "Epoch::to_time_scale (UTC arms)"], "every instant 1900-2100 at ns resolution, source scale TAI or UTC; unwind 44", tq=7200, tt=7200, tier="thorough", mem=30),
+        KaniOb("c16", "c16_next_previous_quick", "next(w) / previous(w) end-to-end on the real weekday(): exactly 1..7 whole days later / earlier on the requested weekday of the TAI calendar, same time of day, same scale",
+               ["Epoch::next", "Epoch::previous", "Epoch::weekday", "Epoch::weekday_in_time_scale", "Weekday - Weekday", "i64 * Unit", "Epoch +/- Duration"],
+               "TAI epochs 1900-2100, every day and every nanosecond of the day x 7 weekdays; unwind 44", tq=2400, mem=24),
         KaniOb("c16", "c16_from_u8", "Weekday::from(u8) / u8::from(Weekday) reduce modulo 7", [f"{W}: From<u8> for Weekday", "From<Weekday> for u8"], "all 256 u8"),
         KaniOb("c16", "c16_from_i8", "Weekday::from(i8) reduces modulo 7 (Euclidean)", [f"{W}: From<i8> for Weekday"], "all 256 i8"),
         KaniOb("c16", "c16_add_u8", "Weekday + u8 and += wrap modulo 7, never overflow", [f"{W}: Add<u8>, AddAssign<u8>"], "all 7 x 256"),
